@@ -21,7 +21,7 @@ from pyvc.env import _MISSING
 from pyvc.expr import SCls, BoundMethod
 from props import routine_world as rw
 
-cls_val = z3.Function("class_as_value", Cls, Val)
+from pyvc.core import cls_val
 PRED = {n: z3.Function("P_" + n, Cls, BoolS) for n in ("ismappingtype", "isiterabletype", "istexttype", "iscollectiontype",
                                                        "issequencetype", "isnamedtuple")}
 _FUNCS: dict = {}
